@@ -133,6 +133,20 @@ Verdict eval_hola(const Case &c) {
     }
     // the separation constraints returned with the graph hold for the returned positions
     ColaGraphRep &cgr = g->updateColaGraphRep();
+    // nodes on cycles or between them (the 2-core of the input graph): HOLA's "core", laid out by the orthogonal pipeline
+    std::vector<char> inCore(c.nodes.size(), 1);
+    {
+        std::vector<int> deg(c.nodes.size(), 0);
+        for (auto &e : c.edges) { deg[e.first]++; deg[e.second]++; }
+        for (bool again = true; again;) {
+            again = false;
+            for (size_t i = 0; i < c.nodes.size(); i++) if (inCore[i] && deg[i] <= 1) {
+                inCore[i] = 0; again = true;
+                for (auto &e : c.edges) if ((e.first == (int)i && inCore[e.second]) || (e.second == (int)i && inCore[e.first])) { deg[e.first]--; deg[e.second]--; }
+            }
+        }
+    }
+    std::string genericMsg, invertedMsg;
     for (int d = 0; d < 2; d++) {
         vpsc::Variables vs;
         for (size_t i = 0; i < cgr.rs.size(); i++) vs.push_back(new vpsc::Variable((int)i));
@@ -143,13 +157,21 @@ Verdict eval_hola(const Case &c) {
             double pl = d == 0 ? cgr.rs[k->left->id]->getCentreX() : cgr.rs[k->left->id]->getCentreY();
             double pr = d == 0 ? cgr.rs[k->right->id]->getCentreX() : cgr.rs[k->right->id]->getCentreY();
             double slack = pr - pl - k->gap;
-            if (v.ok && (k->equality ? std::fabs(slack) > 1e-6 : slack < -1e-6))
-                v.fail(fmt("returned %c-constraint node %d + %.9g %s node %d is violated by %.9g", d ? 'y' : 'x', idx[cgr.ix2id.at(k->left->id)], k->gap, k->equality ? "==" : "<=", idx[cgr.ix2id.at(k->right->id)], k->equality ? std::fabs(slack) : -slack), "sepmatrix-violated");
+            if (k->equality ? std::fabs(slack) > 1e-6 : slack < -1e-6) {
+                int il = idx[cgr.ix2id.at(k->left->id)], ir = idx[cgr.ix2id.at(k->right->id)];
+                std::string m = fmt("returned %c-constraint node %d + %.9g %s node %d is violated by %.9g", d ? 'y' : 'x', il, k->gap, k->equality ? "==" : "<=", ir, k->equality ? std::fabs(slack) : -slack);
+                if (genericMsg.empty()) genericMsg = m;
+                // a directed separation between two core nodes whose order is the reverse of what the constraint says
+                bool inverted = !k->equality && k->gap > 0 && pr < pl - 1e-6 && il >= 0 && ir >= 0 && (size_t)il < inCore.size() && (size_t)ir < inCore.size() && inCore[il] && inCore[ir];
+                if (inverted && invertedMsg.empty()) invertedMsg = m + " (two core nodes in the opposite order)";
+            }
             delete k;
         }
         if (!cs.empty()) v.cls("returned-constraints");
         for (auto x : vs) delete x;
     }
+    if (v.ok && !invertedMsg.empty()) v.fail(invertedMsg, "sepmatrix-core-order-inverted");
+    else if (v.ok && !genericMsg.empty()) v.fail(genericMsg, "sepmatrix-violated");
     return v;
 }
 
